@@ -103,8 +103,10 @@ def _alnum(c):
 
 
 class Renderer:
-    def __init__(self, layout=None, paren_unary=False):
+    def __init__(self, layout=None, paren_unary=False, canonical_clear=False):
         self.L = layout or Layout()
+        # known-finding switch: CLEAR is copied into a comment with its source layout; keep that statement canonical
+        self.canonical_clear = canonical_clear
         # known-finding switch: wrap unary minus / NOT so that the operator's reach is explicit
         self.paren_unary = paren_unary
 
@@ -228,12 +230,20 @@ class Renderer:
         return self.stmts(b[1])
 
     def stmts(self, lst):
-        parts = []
+        out = ""
         for i, s in enumerate(lst):
-            if i:
-                parts.append(":")
-            parts.append(self.stmt(s))
-        return self.j(*parts)
+            t = self.stmt(s)
+            if i == 0:
+                out = t
+                continue
+            prev = lst[i - 1]
+            if prev[0] == "data" and prev[1] and prev[1][-1][0] in ("u", "e"):
+                # blanks after an unquoted DATA item are content: no layout gap before the colon
+                out = out + ":"
+                out = self.j(out, t)
+            else:
+                out = self.j(out, ":", t)
+        return out
 
     def data_item(self, it):
         k = it[0]
@@ -353,6 +363,8 @@ class Renderer:
         if k == "rem":
             return s[2] + s[1]
         if k == "clear":
+            if self.canonical_clear:
+                return Renderer(Layout(), self.paren_unary).stmt(s)
             return j("CLEAR", self.expr(s[1]) if s[1] is not None else None)
         if k == "poke":
             return j("POKE", self.expr(s[1]), ",", self.expr(s[2]))
@@ -445,5 +457,5 @@ class Renderer:
         return text
 
 
-def render(prog, layout=None, paren_unary=False):
-    return Renderer(layout, paren_unary).program(prog)
+def render(prog, layout=None, paren_unary=False, canonical_clear=False):
+    return Renderer(layout, paren_unary, canonical_clear).program(prog)
